@@ -61,4 +61,68 @@ theorem gen_taintLoop_count_eq (o : Oracle) (nowSec : Int) (effect : String) (cs
         (try simp only [ha] at this ⊢)
         omega
 
+/-- Per-candidate facts of the untaint loop outside dry mode: (the listed copy carries the escalator taint, `deleteTaint` reported
+    a failure, —), the oracle index threaded as the model threads it (a candidate without the taint makes no call). -/
+def untaintOutcomes (o : Oracle) : Nat → List Node → List (Bool × Bool × Bool)
+  | _, [] => []
+  | k, c :: cs =>
+    if hasTaint escKey c then
+      let a := deleteTaint o k c
+      (true, !a.val, false) :: untaintOutcomes o a.k cs
+    else (false, false, false) :: untaintOutcomes o k cs
+
+/-- **Tie B, the loop of `untaintNewestN` (count).** Outside dry mode the model's `untaintLoop` hands back exactly as many nodes
+    as the translated loop does when fed the facts of the model's own run. -/
+theorem gen_untaintLoop_count_eq (o : Oracle) (cs : List Node) :
+    ∀ (k need : Nat) (count0 : Int) (tr : List String),
+      ((untaintLoop o false k cs need tr).val.count : Int) =
+        runLoop (fun c e => Gen.untaintStep c (count0 + need) false e.1 e.2.1 e.2.2) count0 (untaintOutcomes o k cs) - count0 := by
+  induction cs with
+  | nil => intro k need count0 tr; simp [untaintLoop, untaintOutcomes, runLoop]
+  | cons c cs ih =>
+    intro k need count0 tr
+    by_cases hn : need = 0
+    · have hstop : ∀ a b d, (Gen.untaintStep count0 (count0 + need) false a b d).1 = true := by
+        intro a b d; exact (untaintStep_spec count0 (count0 + need) false a b d).1.mpr (by omega)
+      rw [hn] at hstop
+      by_cases he : hasTaint escKey c = true
+      · simp only [untaintLoop, hn, if_true, untaintOutcomes, he, runLoop]
+        rw [if_pos (hstop _ _ _)]; simp
+      · have he' : hasTaint escKey c = false := by simpa using he
+        simp only [untaintLoop, hn, if_true, untaintOutcomes, he', Bool.false_eq_true, if_false, runLoop]
+        rw [if_pos (hstop _ _ _)]; simp
+    · have hpos : ¬ count0 ≥ count0 + (need : Int) := by omega
+      have hgo : ∀ a b d, (Gen.untaintStep count0 (count0 + need) false a b d).1 = false := by
+        intro a b d
+        cases h : (Gen.untaintStep count0 (count0 + need) false a b d).1
+        · rfl
+        · exact absurd ((untaintStep_spec count0 (count0 + need) false a b d).1.mp h) hpos
+      by_cases he : hasTaint escKey c = true
+      · have sp := untaintStep_spec count0 (count0 + need) false true (!(deleteTaint o k c).val) false
+        have hc := sp.2.2.1 (hgo _ _ _)
+        simp only [untaintLoop, hn, if_false, Bool.false_eq_true, he, if_true, untaintOutcomes, runLoop, hgo]
+        cases ha : (deleteTaint o k c).val with
+        | true =>
+          simp only [ha, if_true, Bool.not_true, Bool.not_false, Bool.and_true, Bool.true_and, Bool.false_and, Bool.or_false] at hc ⊢
+          have := ih (deleteTaint o k c).k (need - 1) (count0 + 1) tr
+          have hcast : ((need - 1 : Nat) : Int) = (need : Int) - 1 := by omega
+          rw [hcast] at this
+          have hn' : count0 + 1 + ((need : Int) - 1) = count0 + need := by omega
+          rw [hn'] at this
+          rw [hc]
+          omega
+        | false =>
+          simp only [ha, Bool.false_eq_true, if_false, Bool.not_false, Bool.not_true, Bool.and_false, Bool.false_and, Bool.or_false] at hc ⊢
+          have := ih (deleteTaint o k c).k need count0 tr
+          rw [hc, Int.add_zero]
+          omega
+      · have he' : hasTaint escKey c = false := by simpa using he
+        have sp := untaintStep_spec count0 (count0 + need) false false false false
+        have hc := sp.2.2.1 (hgo _ _ _)
+        simp only [untaintLoop, hn, if_false, Bool.false_eq_true, he', untaintOutcomes, runLoop, hgo]
+        simp only [Bool.not_false, Bool.and_false, Bool.false_and, Bool.or_false, Bool.false_eq_true, if_false] at hc
+        have := ih k need count0 tr
+        rw [hc, Int.add_zero]
+        omega
+
 end Esc.P
